@@ -2,8 +2,16 @@
 
 package rt
 
+import "unsafe"
+
 func raceDisable() {}
 func raceEnable()  {}
 
 func ioRelease() {}
 func ioAcquire() {}
+
+func hsRelease() {}
+func hsAcquire() {}
+
+func HBRelease(p unsafe.Pointer) {}
+func HBAcquire(p unsafe.Pointer) {}
